@@ -19,6 +19,7 @@ One Lean definition per Rust function on the path:
 | `writeManyV`                 | the `for r in reports` / `for e in exports` loop with its `?`s                  |
 | `writeTxtReportsV`, `writeExportsV` | `report::write_txt_reports` (file mode), `export::write_exports`          |
 | `runV`                       | `tackler-cli/src/main.rs` `run` (output part) and `main` (exit status)          |
+| `cliRunV`                    | the same with the loading phase in front, as an unmodelled parameter `Loader`  |
 
 The code modelled is the code *after* the proposed fix `fixes/F4-flush.diff` (`out_writer.flush()?` before the
 announcement line).  The Boolean `flushChecked` selects the variant: `true` = patched (`run`, `writeDest`, …),
@@ -219,6 +220,18 @@ def runV (flushChecked : Bool) (cap : Nat) (plan : Plan) (fs : FS) (faults : Fau
     let e := writeExportsV flushChecked cap faults plan.exports r.fs
     ⟨if e.ok = true then 0 else 1, e.fs, r.announced ++ e.announced⟩
 
+/-! ## the part of `run` before the outputs -/
+
+/-- Configuration, journal loading (`paths_to_txns` / `git_to_txns`), filtering, the empty-set check: everything `run`
+    does before it writes.  Not modelled — a parameter: what it does to the file system, and whether it succeeds. -/
+structure Loader where
+  load : FS → FS × Bool
+
+/-- the whole of `run` + `main`: load (`?`), then the outputs -/
+def cliRunV (flushChecked : Bool) (L : Loader) (cap : Nat) (plan : Plan) (fs : FS) (faults : FaultPlan) : Result :=
+  if (L.load fs).2 = false then ⟨1, (L.load fs).1, []⟩
+  else runV flushChecked cap plan (L.load fs).1 faults
+
 /-! ## the patched code (what the theorems of `Props/C14.lean` are about) -/
 
 /-- capacity of `BufWriter::new` (`DEFAULT_BUF_SIZE`) -/
@@ -227,6 +240,8 @@ def defaultCap : Nat := 8192
 def writeDest := writeDestV true
 def writeMany := writeManyV true
 def run (cap : Nat) (plan : Plan) (fs : FS) (faults : FaultPlan) : Result := runV true cap plan fs faults
+def cliRun (L : Loader) (cap : Nat) (plan : Plan) (fs : FS) (faults : FaultPlan) : Result :=
+  cliRunV true L cap plan fs faults
 
 end Output
 end Tackler
